@@ -423,11 +423,15 @@ def zero_edit_cases(tier, seed, stores=("local",)):
     reordering, non-accepted edits, relocation, entry-style switches."""
     cases = []
     k = 0
-    for layout, form, *flags in (("three", "from_import"), ("one", "from_import"), ("deep", "rel_from"), ("three", "import_mod_as"), ("two", "from_import_as"), ("three", "from_import", "ext-inside"), ("deep", "from_import", "ext-inside"), ("three", "from_import", "ext-base"), ("two", "from_import_as", "ext-base"), ("three", "from_import", "annotated"), ("one", "from_import", "annotated")):
+    for layout, form, *flags in (("three", "from_import"), ("one", "from_import"), ("deep", "rel_from"), ("three", "import_mod_as"), ("two", "from_import_as"), ("three", "from_import", "ext-inside"), ("deep", "from_import", "ext-inside"), ("three", "from_import", "ext-base"), ("two", "from_import_as", "ext-base"), ("three", "from_import", "annotated"), ("one", "from_import", "annotated"), ("three", "from_import", "data-function-defaults"), ("two", "from_import", "data-function-defaults")):
         for entry_data in (False, True):
             p0 = base_program("pz%d" % k, layout=layout, import_form=form, entry_data=entry_data, ext_inside="ext-inside" in flags)
             if "annotated" in flags:
                 p0["annotate"] = True
+            if "data-function-defaults" in flags:
+                # data functions that declare parameters with defaults (they are still called without arguments)
+                for nm in ("B", "C", "EMS") + (("main",) if entry_data else ()):
+                    p0["fns"][p0["_ids"][nm]]["params"] = [("scale", "3"), ("label", "'x'")]
             k += 1
             ids = p0["_ids"]
             if "ext-base" in flags:
